@@ -556,22 +556,13 @@ theorem inv_job_step_any {cfg : Cfg} (hg : cfg.Good) {s : St} {d : Disk} (h : In
       | failEffect => rw [stepJob_rm_failEffect (Or.inr (Or.inr hpc))] at hs; exact inv_job_step hg h hj hs
   | done => rw [stepJob_no_op o (by simp [hpc])] at hs; exact inv_job_step hg h hj hs
 
-/-- every step of the machine under storage faults: every failure in a job except D10 and D26, every failure of a
-    journal `Write`/`Sync` of the write path, a `newMem` whose `Create` fails without effect; a transaction is
-    opened only when no record of a failed write may be waiting in a journal -/
+/-- every step of the machine under storage faults: every failure of every storage operation except D10 and D26 -/
 theorem inv_step_faults {cfg : Cfg} (hg : cfg.Good) {s : St} {d : Disk}
     (h : Inv cfg s d) {a : Act} (hcs : a.writerFaultFree = true ∨ cfg.consumeSeqOnJournalError = true)
     (ha : a.faultsOK (s, d) = true) {s' : St} {d' : Disk}
     (hs : step cfg s d a = some (s', d')) : Inv cfg s' d' := by
   simp only [Act.faultsOK, Bool.and_eq_true] at ha
-  obtain ⟨⟨⟨h10, h26⟩, hrc⟩, htc⟩ := ha
-  have hcl : a = .trBegin → s.everFailed = false ∨ ∀ p ∈ d.journals, s.stJn ≤ p.1 → p.2.all = [] := by
-    intro e
-    subst e
-    simp only [Act.trOnCleanJournals, Bool.or_eq_true, Bool.not_eq_true'] at htc
-    rcases htc with h1 | h1
-    · exact Or.inl h1
-    · exact Or.inr (cleanJournals_iff.1 h1)
+  obtain ⟨h10, h26⟩ := ha
   cases a with
   | job rot o =>
     simp only [step] at hs
@@ -592,8 +583,8 @@ theorem inv_step_faults {cfg : Cfg} (hg : cfg.Good) {s : St} {d : Disk}
     · exact h1
   | rotate o =>
     cases o with
-    | ok => exact inv_step hg h (a := .rotate .ok) rfl (fun e => nomatch e) hs
-    | failEffect => simp [Act.rotateCreateOK] at hrc
+    | ok => exact inv_step hg h (a := .rotate .ok) rfl hs
+    | failEffect => exact inv_rotate_failEffect h hs
     | failNoEffect =>
       -- `Create` failed, nothing happened: `newMem` returns the error
       simp only [step, stepWriter] at hs
@@ -602,19 +593,19 @@ theorem inv_step_faults {cfg : Cfg} (hg : cfg.Good) {s : St} {d : Disk}
         obtain ⟨rfl, rfl⟩ := hs
         exact h
       · cases hs
-  | wApply => exact inv_step hg h (a := .wApply) rfl (fun e => nomatch e) hs
-  | wPublish => exact inv_step hg h (a := .wPublish) rfl (fun e => nomatch e) hs
-  | wAck => exact inv_step hg h (a := .wAck) rfl (fun e => nomatch e) hs
-  | flushStart => exact inv_step hg h (a := .flushStart) rfl (fun e => nomatch e) hs
-  | crash ch => exact inv_step hg h (a := .crash ch) rfl (fun e => nomatch e) hs
-  | exit => exact inv_step hg h (a := .exit) rfl (fun e => nomatch e) hs
-  | recOpen => exact inv_step hg h (a := .recOpen) rfl (fun e => nomatch e) hs
-  | recStep => exact inv_step hg h (a := .recStep) rfl (fun e => nomatch e) hs
-  | compactStart i => exact inv_step hg h (a := .compactStart i) rfl (fun e => nomatch e) hs
-  | trBegin => exact inv_step hg h (a := .trBegin) rfl hcl hs
-  | trPut r => exact inv_step hg h (a := .trPut r) rfl (fun e => nomatch e) hs
-  | trCommit => exact inv_step hg h (a := .trCommit) rfl (fun e => nomatch e) hs
-  | trDiscard => exact inv_step hg h (a := .trDiscard) rfl (fun e => nomatch e) hs
+  | wApply => exact inv_step hg h (a := .wApply) rfl hs
+  | wPublish => exact inv_step hg h (a := .wPublish) rfl hs
+  | wAck => exact inv_step hg h (a := .wAck) rfl hs
+  | flushStart => exact inv_step hg h (a := .flushStart) rfl hs
+  | crash ch => exact inv_step hg h (a := .crash ch) rfl hs
+  | exit => exact inv_step hg h (a := .exit) rfl hs
+  | recOpen => exact inv_step hg h (a := .recOpen) rfl hs
+  | recStep => exact inv_step hg h (a := .recStep) rfl hs
+  | compactStart i => exact inv_step hg h (a := .compactStart i) rfl hs
+  | trBegin => exact inv_step hg h (a := .trBegin) rfl hs
+  | trPut r => exact inv_step hg h (a := .trPut r) rfl hs
+  | trCommit => exact inv_step hg h (a := .trCommit) rfl hs
+  | trDiscard => exact inv_step hg h (a := .trDiscard) rfl hs
 
 theorem inv_run_faults {cfg : Cfg} (hg : cfg.Good) (hcs : cfg.consumeSeqOnJournalError = true) {sd sd' : St × Disk}
     (h : Inv cfg sd.1 sd.2) (as : List Act)
@@ -636,10 +627,10 @@ theorem inv_run_faults {cfg : Cfg} (hg : cfg.Good) (hcs : cfg.consumeSeqOnJourna
       simp only at hr hrest
       exact ih (inv_step_faults hg h (Or.inr hcs) ha hst) hrest hr
 
-/-- the job faults alone (`Act.jobFaultsOnly`): no journal operation of the write path fails, the ghost flag stays
-    clear, no assumption on `consumeSeqOnJournalError` and none on transactions is needed -/
+/-- the job faults alone (`Act.jobFaultsOnly`): no journal operation of the write path fails; no assumption on
+    `consumeSeqOnJournalError` is needed -/
 theorem inv_run_jobFaults {cfg : Cfg} (hg : cfg.Good) {sd sd' : St × Disk} (h : Inv cfg sd.1 sd.2)
-    (hef : sd.1.everFailed = false) (as : List Act)
+    (as : List Act)
     (hal : Allowed cfg (fun sd a => a.jobFaultsOnly sd.1) sd as) (hr : run cfg sd as = some sd') :
     Inv cfg sd'.1 sd'.2 := by
   induction as generalizing sd with
@@ -659,19 +650,14 @@ theorem inv_run_jobFaults {cfg : Cfg} (hg : cfg.Good) {sd sd' : St × Disk} (h :
     | some sd1 =>
       rw [hst] at hr hrest
       simp only at hr hrest
-      refine ih (inv_step_faults hg h (Or.inl ha'.1.1) ?_ hst) (step_everFailed ha'.1.1 hef hst) hrest hr
+      refine ih (inv_step_faults hg h (Or.inl ha'.1.1) ?_ hst) hrest hr
       simp only [Act.faultsOK, Bool.and_eq_true]
-      refine ⟨⟨⟨ha'.1.2, ha'.2⟩, ?_⟩, ?_⟩
-      · have := ha'.1.1
-        cases a <;> simp_all [Act.rotateCreateOK, Act.writerFaultFree]
-      · cases a <;> simp [Act.trOnCleanJournals, hef]
+      exact ⟨ha'.1.2, ha'.2⟩
 
 /-- the job faults alone (`Act.jobFaultsOnly`) are a special case -/
-theorem faultsOK_of_jobFaultsOnly {sd : St × Disk} {a : Act} (h : a.jobFaultsOnly sd.1 = true)
-    (ht : a.trOnCleanJournals sd = true) : a.faultsOK sd = true := by
+theorem faultsOK_of_jobFaultsOnly {sd : St × Disk} {a : Act} (h : a.jobFaultsOnly sd.1 = true) :
+    a.faultsOK sd = true := by
   simp only [Act.jobFaultsOnly, Act.faultsOK, Bool.and_eq_true] at h ⊢
-  obtain ⟨⟨hw, h10⟩, h26⟩ := h
-  refine ⟨⟨⟨h10, h26⟩, ?_⟩, ht⟩
-  cases a <;> simp_all [Act.rotateCreateOK, Act.writerFaultFree]
+  exact ⟨h.1.2, h.2⟩
 
 end GoLevel.Dur
